@@ -70,13 +70,22 @@ fn c08_fixed_set_range() {
     assert!(changed0);
     let (s1, l1) = window_in_page();
     let v: bool = kani::any();
-    b.set_range(s1, l1, v);
+    let changed1 = b.set_range(s1, l1, v);
     let j: u32 = kani::any();
     kani::assume(j < 32768);
     let first = in_range(j as u64, s0 as u64, l0 as u64);
     let second = in_range(j as u64, s1 as u64, l1 as u64);
     let expect = if second { v } else { first };
     assert!(b.get(j) == expect);
+    // the returned "changed" flag (it decides whether the page is written back on flush): true
+    // iff some bit of the second range differed from v before the call -- whichever word it is in
+    let (a0, e0, a1, e1) = (s0 as u64, s0 as u64 + l0 as u64, s1 as u64, s1 as u64 + l1 as u64);
+    let overlap = a1 < e0 && a0 < e1;
+    let inside_first = a0 <= a1 && e1 <= e0;
+    let expect_changed = if v { !inside_first } else { overlap };
+    assert!(changed1 == expect_changed);
+    kani::cover!(changed1 && !v, "a clear that changes something");
+    kani::cover!(!changed1, "an update that changes nothing");
     kani::cover!(true, "reached end");
 }
 
